@@ -31,14 +31,17 @@ SCHEMA_URI = {D2019: "2019-09", D7: "draft-07"}
 def jobs(prop, tier, seed):
     out = []
     q = tier == "quick"
-    for pid in pools.ids("data", tier) + pools.random_ids(seed, 8 if tier == "quick" else 60):
-        spec, _ = pools.get("data", pid)
+    data_ids = pools.ids("data", tier)
+    todo = [("data", pid) for pid in data_ids + pools.random_ids(seed, 8 if tier == "quick" else 60)]
+    todo += [("union", pid) for pid in pools.ids("union", tier) if pid not in data_ids]
+    for pool, pid in todo:
+        spec, _ = pools.get(pool, pid)
         if any(s.k == "obj" and any(f.fall_back for f in s.a) for s in walk(spec)):
             continue
         big = n_positions(spec) >= 8
         for v in VERSIONS:
             b = dict(depth=2, width=2, strlen=2, budget=1 if (q or big) else 2, distinct_sets=True)
-            out.append(dict(harness="C18", pool="data", pid=pid, version=v, opts={}, bounds=b, budget_s=20 if q else 120))
+            out.append(dict(harness="C18", pool=pool, pid=pid, version=v, opts={}, bounds=b, budget_s=20 if q else 120))
     return out
 
 
@@ -168,7 +171,7 @@ class Inst:
         except OutsideDomain:
             raise Assume("outside the common semantic domain")
         except DanglingRef as e:
-            return Failure("dangling-ref", str(e), witness=d, extra={"schema": self.conv})
+            return Failure("ill-founded-ref" if type(e).__name__ == "IllFounded" else "dangling-ref", str(e), witness=d, extra={"schema": self.conv})
         ctx.notes["tag:both-valid" if a and b else "tag:both-invalid" if not a and not b else "tag:differ"] = True
         ctx.notes["tag:agree"] = a == b
         if a != b:
